@@ -29,11 +29,15 @@ def run(project, rep):
     rep.run(S.s_r4_contiguity, schema, rep)
     rep.run(S.s_r5_listkinds, schema, rep)
     rep.run(S.s_r6_constraints, schema, rep)
+    rep.run(S.s_r6d_route_independent_constraints, schema, rep)
     rep.run(S.s_r7_shadowing, schema, rep)
     rep.run(S.s_r8_buildable, schema, rep)
     rep.run(S.s_r9_own_descriptor, schema, rep)
     rep.run(S.s_r10_per_class_tables, schema, rep)
     rep.run(S.s_r6c_children_suppliable, schema, rep)
+    from .. import rules_unknown as U
+    rep.rule("S-R11", "what is written is read back: class-specific groom()/ungroom() overrides only rename elements - none re-sequences, adds or removes children (U-R9), so the written order is the declared order the reader checks")
+    rep.run(U.u_r9_overrides_only_retag, schema, rep)
     from .. import rules_purity as E
     rep.rule("S-R11", "every exclusivity group stays in force: the class-level tables are re-iterable (E-R7)")
     rep.run(E.e_r7_reiterable_class_tables, project, rep)
